@@ -47,6 +47,8 @@ def plan(tier, seed):
 
 def _nearest_ok(x_frac, res, out, raw):
     """res must be a classic tick at minimal distance from x (ties allowed), clamped to [1.01, 1000]."""
+    if res != res:
+        return  # the call raised; already reported
     c = res * 100
     ci = int(round(c))
     if abs(c - ci) > 1e-7 or ci not in _TICKSET:
@@ -76,10 +78,30 @@ def _band(c):
     return 0
 
 
+class _Guard:
+    """Wraps the helper functions: an exception raised for an in-domain input is an observation (violation)."""
+
+    def __init__(self, mod, out):
+        self.mod, self.out = mod, out
+
+    def __getattr__(self, name):
+        fn = getattr(self.mod, name)
+
+        def call(*a):
+            try:
+                return fn(*a)
+            except Exception as e:  # noqa
+                self.out.v("helper-raised", {"function": name, "exc": type(e).__name__}, args=[repr(x) for x in a[:2]])
+                return float("nan")
+
+        return call
+
+
 def run(case):
-    from flumine import utils as U
+    from flumine import utils as _U
 
     out = O.Out(PROPERTY)
+    U = _Guard(_U, out)
     kind = case["kind"]
     if kind == "nearest":
         for k in range(case["lo"], case["hi"]):
@@ -116,7 +138,7 @@ def run(case):
                 r = U.price_ticks_away(p, n)
                 out.rule("ticks-away")
                 exp = L.CLASSIC[max(0, min(349, i + n))]
-                if abs(r - exp) > 1e-9:
+                if r == r and abs(r - exp) > 1e-9:
                     out.v("ticks-away-wrong", {"clamp": "low" if i + n < 0 else "high" if i + n > 349 else "none"}, price=p, n=n, result=r, expected=exp)
         out.d("ticks:%d" % case["lo"])
         out.c("distinct_inputs", (case["hi"] - case["lo"]) * 801)
